@@ -207,6 +207,12 @@ func mkCodec(dj Dec) (ev CEv) {
 	ev.Ok = err == nil
 	ev.Err = errStr(err)
 	ev.Res = encDec(&back)
+	// the same parts composed into a destination that held another value (C06 / C13)
+	used := apd.New(987654321, 33)
+	used.Negative = !neg
+	if err2 := used.Compose(form, neg, coeff, exp); err2 == nil {
+		ev.Res2 = encDec(used)
+	}
 	ev.DA = encDec(d)
 	return ev
 }
